@@ -256,6 +256,9 @@ func (e *env) genBridgeCall() bcCase {
 func (e *env) corpusFiles() []bcCase {
 	var out []bcCase
 	files, _ := filepath.Glob(filepath.Join(corpusDir(), "C18", "*.json"))
+	if filepath.Base(corpusDir()) == "C18" { // bin/check hands over corpus/<ID> itself
+		files, _ = filepath.Glob(filepath.Join(corpusDir(), "*.json"))
+	}
 	sort.Strings(files)
 	for _, f := range files {
 		var r struct {
